@@ -47,6 +47,8 @@ REQUESTS = {
     "del1": (33, [(1, [])], False),
     "del2": (33, [(2, [])], False),
     "delall": (33, [], False),
+    "del1_del2": (33, [(1, []), (2, [])], False),
+    "del2_del1": (33, [(2, []), (1, [])], False),
     "link_c1_r1": (35, [(1, [1])], False),
     "link_c1_r2": (35, [(1, [2])], False),
     "link_c1_r12": (35, [(1, [1, 2])], False),
@@ -67,7 +69,7 @@ REQUESTS = {
 }
 ALPHABET_QUICK = ["def1_sv", "link_c1_r1", "enable_all", "def2_dv", "link_c1_r12", "del1", "link_c1_r11", "delall", "unlink_c1",
                   "link_c2_r1", "def1_svdv", "disable_c1", "def1_unknown_vid", "link_c2_then_bad", "set_sv", "del2", "link_c1_r2",
-                  "bad_then_def2", "link_bad_then_c2", "link_c1c2_r2", "link_c1c2_r1", "def12"]
+                  "bad_then_def2", "link_bad_then_c2", "link_c1c2_r2", "link_c1c2_r1", "def12", "del1_del2"]
 ALPHABET_FULL = list(REQUESTS) + ["set_sv"]
 # used by the concurrent part's set-up only (not in the BFS alphabets)
 REQUESTS["link_c2_r2"] = (35, [(2, [2])], False)
